@@ -1321,3 +1321,125 @@ twin('C18-twin-optional-read', 'C18',
        "    with h5py.File(marker_cache_path, \"r\") as src:\n"
        "        if 'cache_version' in src:\n"
        "            print(src['cache_version'][()])\n")])
+
+
+# ----------------------------------------------------------------------
+# C16
+# ----------------------------------------------------------------------
+mutant('C16-round-original', 'C16',
+       'rounding is applied to the input file instead of the scratch copy',
+       [(P+'validation/validate_h5ad.py',
+         "            round_x_to_integers(\n"
+         "                h5ad_path=tmp_h5ad_path,\n",
+         "            round_x_to_integers(\n"
+         "                h5ad_path=original_h5ad_path,\n")],
+       'R-EFFECT')
+mutant('C16-var-written-to-input', 'C16',
+       'the mapped var frame is written into the input file',
+       [(P+'validation/validate_h5ad.py',
+         "            write_df_to_h5ad(\n"
+         "                h5ad_path=tmp_h5ad_path,\n",
+         "            write_df_to_h5ad(\n"
+         "                h5ad_path=original_h5ad_path,\n")],
+       'R-EFFECT')
+mutant('C16-open-input-rplus', 'C16',
+       'the open-probe opens the input read-write',
+       [(P+'validation/validate_h5ad.py',
+         "        with h5py.File(original_h5ad_path, 'r') as src:\n"
+         "            pass\n",
+         "        with h5py.File(original_h5ad_path, 'r+') as src:\n"
+         "            pass\n")],
+       'R-EFFECT/input-untouched')
+mutant('C16-return-scratch-path', 'C16',
+       'the scratch path is returned instead of the copied file',
+       [(P+'validation/validate_h5ad.py',
+         "        output_path = new_h5ad_path\n",
+         "        output_path = tmp_h5ad_path\n")],
+       'R-PROV/no-change-no-file', 'returned-path')
+mutant('C16-always-write', 'C16',
+       'the output file is written even when nothing changes',
+       [(P+'validation/validate_h5ad.py',
+         "    write_to_new_path = False\n    has_warnings = False\n",
+         "    write_to_new_path = True\n    has_warnings = False\n")],
+       'R-PROV/no-change-no-file', 'nothing-to-change')
+mutant('C16-census-after-copy', 'C16',
+       'the duplicate-gene check runs after the output was written',
+       [(P+'validation/validate_h5ad.py',
+         "    if log is not None:\n"
+         "        msg = f\"DONE VALIDATING ../{original_h5ad_path.name}; \"",
+         "    _check_input_gene_names(\n"
+         "        var_df=var_original,\n        log=log)\n"
+         "    if log is not None:\n"
+         "        msg = f\"DONE VALIDATING ../{original_h5ad_path.name}; \"")],
+       'R-MUST/output-written-last', 'no-rejection-after-copy')
+mutant('C16-dup-genes-warn-with-log', 'C16',
+       'with a log, two genes mapping to one identifier only warn',
+       [(P+'validation/validate_h5ad.py',
+         "                if log is not None:\n"
+         "                    log.error(error_msg)\n"
+         "                else:\n"
+         "                    raise RuntimeError(error_msg)\n\n"
+         "            write_df_to_h5ad(",
+         "                if log is not None:\n"
+         "                    log.warn(error_msg)\n"
+         "                else:\n"
+         "                    raise RuntimeError(error_msg)\n\n"
+         "            write_df_to_h5ad(")],
+       'R-ARMS/log-arms')
+mutant('C16-dup-cells-accepted', 'C16',
+       'repeated cell ids no longer raise',
+       [(P+'validation/validate_h5ad.py',
+         "            f\"{msg}\"\n        )\n        raise RuntimeError(msg)\n",
+         "            f\"{msg}\"\n        )\n        warnings.warn(msg)\n")],
+       'R-MUST/census-raises', 'duplicate-cell-ids')
+mutant('C16-minmax-of-X', 'C16',
+       'min/max is measured on X although another layer was requested',
+       [(P+'validation/validate_h5ad.py',
+         "        x_minmax = get_minmax_x_from_h5ad(\n"
+         "            h5ad_path=original_h5ad_path,\n"
+         "            layer=layer)\n",
+         "        x_minmax = get_minmax_x_from_h5ad(\n"
+         "            h5ad_path=original_h5ad_path)\n")],
+       'R-SAMEVAL/layer', 'get_minmax_x_from_h5ad')
+mutant('C16-log-error-returns', 'C16',
+       'CommandLog.error only records the message',
+       [(P+'cli/cli_log.py',
+         "    def error(self, msg):\n        raise RuntimeError(msg)\n",
+         "    def error(self, msg):\n"
+         "        self._log.append(self._prepend_time(msg))\n")],
+       'R-ARMS/log-error-raises')
+mutant('C16-mapped-count-after-copy', 'C16',
+       'the mapped-gene count is recorded after the final copy',
+       [(P+'validation/validate_h5ad.py',
+         "        update_uns(\n            tmp_h5ad_path,\n"
+         "            {'AIBS_CDM_n_mapped_genes': n_genes-n_unmapped_genes})"
+         "\n\n",
+         ""),
+        (P+'validation/validate_h5ad.py',
+         "            excluded_datasets=None)\n    else:\n"
+         "        if new_h5ad_path.exists():",
+         "            excluded_datasets=None)\n"
+         "        update_uns(\n            tmp_h5ad_path,\n"
+         "            {'AIBS_CDM_n_mapped_genes': n_genes-n_unmapped_genes})"
+         "\n    else:\n"
+         "        if new_h5ad_path.exists():")],
+       'R-MUST/renaming-recorded')
+
+twin('C16-twin-extra-readonly-probe', 'C16',
+     'an additional read-only probe of the input',
+     [(P+'validation/validate_h5ad.py',
+       "    cast_to_int = False\n    if round_to_int:\n",
+       "    with h5py.File(original_h5ad_path, 'r') as probe:\n"
+       "        probe.keys()\n"
+       "    cast_to_int = False\n    if round_to_int:\n")])
+twin('C16-twin-arms-swapped', 'C16',
+     'log conditional written the other way round',
+     [(P+'validation/validate_h5ad.py',
+       "        if log is None:\n"
+       "            raise RuntimeError(msg)\n"
+       "        else:\n"
+       "            log.error(msg)\n\n    cast_to_int = False\n",
+       "        if log is not None:\n"
+       "            log.error(msg)\n"
+       "        else:\n"
+       "            raise RuntimeError(msg)\n\n    cast_to_int = False\n")])
